@@ -12,3 +12,16 @@ echo "== clean (non-OK)";   grep -v "^OK" "$out/clean.txt" | cut -c1-300
 echo "== seeds (not reported)"; grep -v "REPORTED\|conda" "$out/seeds.txt"
 echo "== thorough (non-OK)"; grep -v "^OK" "$out/thorough.txt" | cut -c1-400
 echo "== benign"; tail -1 "$out/benign.txt"
+echo "== self-test catalogue entries whose anchor no longer occurs exactly once on the unchanged tree"
+/venv/bin/python - <<'PY'
+import sys; sys.path.insert(0, ".")
+from sa import mutants
+n = 0
+for m in mutants.CATALOGUE:
+    for rel, old, new in m["edits"]:
+        if open("/repo/src/" + rel).read().count(old) != 1:
+            n += 1
+            print("STALE", m["prop"], m["name"])
+print(len(mutants.CATALOGUE), "entries,", n, "stale")
+PY
+
